@@ -337,6 +337,9 @@ def make_agent_class():
 
         def process_new_market(self, market, market_book):
             self.calls.append(("new", market.market_id, market_book.publish_time_epoch))
+            lr = self.run.markets_by_id[market.market_id].get("line_result")
+            if lr is not None:
+                market.context["line_range_result"] = lr
             _dispatch("strategy_call", self, market, "new")
             self.run._maybe_raise(self, "new", market)
 
